@@ -62,6 +62,9 @@ func hasMeta(p string) bool { return strings.ContainsAny(p, `*?[\`) }
 
 // foreignPanic: panics are C16's business; other CLI checks skip such runs.
 func foreignPanic(e *Env, res *cmdResult) bool {
+	if res.aborted {
+		return true // counted as command-did-not-terminate by the runner
+	}
 	if len(res.panics) > 0 {
 		e.Skip("foreign-panic-in-command")
 		return true
